@@ -294,7 +294,15 @@ def dictStep (r : Registry) (lk : Link) (acc : Dict × List Err) (md : Mod) : Op
   | some cl => some (cl.foldl (regSeq r) acc)
 
 theorem buildDict_eq (o : Oracle) (r : Registry) (lk : Link) :
-    buildDict o r lk = (o.order siteModules (moduleEntries r)).foldlM (dictStep r lk) ([], []) := rfl
+    buildDict o r lk = (modulesByKey o r).foldlM (dictStep r lk) ([], []) := rfl
+
+/-- Whatever the map order and the sort make of it, the loop visits the entries of `ms.Modules`. -/
+theorem mem_modulesByKey (o : Oracle) (ho : o.Valid) (r : Registry) (md : Mod) :
+    md ∈ modulesByKey o r ↔ md ∈ moduleEntries r := by
+  unfold modulesByKey moduleEntries
+  have hp : (sortStable (fun a b => decide (a.1 < b.1)) (o.order siteModules r.modules)).Perm r.modules :=
+    (sortStable_perm _ _).trans (ho _ siteModules r.modules)
+  exact (hp.filterMap _).mem_iff
 
 structure TopPost (r : Registry) (L : List Mod) (acc res : Dict × List Err) : Prop where
   sound : (∀ e ∈ acc.1, Sound r e) → ∀ e ∈ res.1, Sound r e
@@ -369,19 +377,19 @@ theorem buildDict_spec (o : Oracle) (ho : o.Valid) (r : Registry) (lk : Link) (h
       (∀ s, InSchema r s → ∀ m ow, r.byId s = some m → r.owner m = some ow → ∀ st ∈ identities m,
         ∃ x ∈ dict, x.key = Vtx.key (ow.name, st.arg)) ∧
       (errs = [] ↔ ∀ s, InSchema r s → ∀ m, r.byId s = some m → ∃ ow, r.owner m = some ow) := by
-  have hperm := ho Mod siteModules (moduleEntries r)
-  obtain ⟨res, hres, p⟩ := dictFold_post r lk hlk (o.order siteModules (moduleEntries r))
-    (fun md hmd => hperm.mem_iff.mp hmd) ([], [])
+  have hperm := mem_modulesByKey o ho r
+  obtain ⟨res, hres, p⟩ := dictFold_post r lk hlk (modulesByKey o r)
+    (fun md hmd => (hperm md).mp hmd) ([], [])
   refine ⟨res.1, res.2, by rw [buildDict_eq, hres], p.sound (by simp), ?_, ?_⟩
   · rintro s ⟨md, hmd, hs⟩
-    exact p.adds md (hperm.mem_iff.mpr hmd) s hs
+    exact p.adds md ((hperm md).mpr hmd) s hs
   · obtain ⟨t, e, q⟩ := p.errs
     simp only [List.nil_append] at e
     rw [e, q]
     constructor
     · rintro h s ⟨md, hmd, hs⟩
-      exact h md (hperm.mem_iff.mpr hmd) s hs
+      exact h md ((hperm md).mpr hmd) s hs
     · intro h md hmd s hs
-      exact h s ⟨md, hperm.mem_iff.mp hmd, hs⟩
+      exact h s ⟨md, (hperm md).mp hmd, hs⟩
 
 end Goyang.Lemmas.Identity
